@@ -461,6 +461,7 @@ func runScanCase(ctx *Ctx, lc *LCase, caseIdx int) {
 	window := 200
 	opts := allOptSets()
 	sampled := false
+	var prevScan *scanEnv
 	for oi, o := range opts {
 		if lc.Exh {
 			// behaviourally distinct sets only
@@ -518,6 +519,17 @@ func runScanCase(ctx *Ctx, lc *LCase, caseIdx int) {
 				}
 			}
 		}
+		// the complete trie of an earlier option set is still alive: scan it
+		// again now that other tries have been built since
+		if prevScan != nil {
+			prevScan.window = 40
+			prevScan.scanOnce("", true, true, 0, "", false, false)
+			if len(starts) > 1 {
+				prevScan.scanOnce(starts[1], false, false, 0, starts[0], true, true)
+			}
+			ctx.Count("survivor_rescans", 1)
+		}
+		prevScan = &scanEnv{ctx: ctx, lc: lc, opt: o, model: m, inst: "survivor(fresh)", st: st, encVals: encVals[o.D], window: 40}
 		insts := []Inst{{"fresh", st}}
 		if ld, err, pv, stack := loadTrie(enc, stream); pv != nil || err != nil {
 			env.inst = "loaded"
@@ -631,7 +643,7 @@ func init() {
 		},
 		Gates: shapeGates("shape:with_257bit_nodes", "shape:with_257bit_below_root", "shape:with_17bit_nodes", "shape:with_short_nodes", "shape:with_straddling_short",
 			"shape:with_end_of_key_label", "shape:with_halfbyte_prefix", "shape:with_aligned_prefix", "shape:with_varlen_leaves", "shape:varlen_grow_and_shrink",
-			"refusal:panicked", "scans:full_length", "scans:cut_by_end_bound", "scans:empty_result", "interleaved_scan_sets", "iters:run_to_exhaustion", "instances:loaded", "valkind:str16", "valkind:none"),
+			"refusal:panicked", "scans:full_length", "scans:cut_by_end_bound", "scans:empty_result", "interleaved_scan_sets", "survivor_rescans", "iters:run_to_exhaustion", "instances:loaded", "valkind:str16", "valkind:none"),
 		Assumptions: []string{
 			"the reference model (sorted retained list, lower bound) is correct",
 			"reference value encodings in harness/gen_vals.go are the documented layouts",
